@@ -182,11 +182,44 @@ def state_json(res, world):
     }
 
 
+def alias(x, r, pool, p=0.6):
+    """`x` rebuilt so that equal containers are, with probability p, ONE Python object (in the schema,
+    in the instance, across the two). JSON values are trees: sharing is invisible to JSON, so nothing
+    may depend on it — but `id()`-keyed memos and in-place bookkeeping do."""
+    if isinstance(x, dict):
+        nx = {k: alias(v, r, pool, p) for k, v in x.items()}
+    elif isinstance(x, list):
+        nx = [alias(v, r, pool, p) for v in x]
+    else:
+        return x
+    key = repr(nx)
+    if key in pool and r.random() < p:
+        return pool[key]
+    pool[key] = nx
+    return nx
+
+
+def maybe_alias(case, *values):
+    """one case in three is run on aliased copies (deterministic in the case; `alias: False` opts out)"""
+    if case.get("alias") is False:
+        return values
+    import random
+    import zlib
+    seed = zlib.crc32(repr([case.get("schema"), case.get("inst"), case.get("ops")]).encode("utf-8", "replace"))
+    if seed % 3:
+        return values
+    r, pool = random.Random(seed), {}
+    try:
+        return tuple(alias(v, r, pool) for v in values)
+    except RecursionError:
+        return values
+
+
 def run_val(case, world=None, custom_fc=None):
     """mirror of Channels.runVAL"""
     tag = case["cls"]
     cls = DRAFTS[tag] if isinstance(tag, str) else tag
-    schema, inst = case["schema"], case["inst"]
+    schema, inst = maybe_alias(case, case["schema"], case["inst"])
     try:
         res = make_resolver(cls, schema, case.get("resolver"), world)
         v = cls(schema, resolver=res, format_checker=make_fc(case.get("fc"), tag, custom_fc))
@@ -200,15 +233,19 @@ def run_hist(case, world=None, custom_fc=None, observe=None):
     """mirror of Channels.runHIST: a sequence of operations on ONE validator object"""
     tag = case["cls"]
     cls = DRAFTS[tag] if isinstance(tag, str) else tag
-    schema = case["schema"]
+    schema, ops = maybe_alias(case, case["schema"], case["ops"])
     try:
         res = make_resolver(cls, schema, case.get("resolver"), world)
         v = cls(schema, resolver=res, format_checker=make_fc(case.get("fc"), tag, custom_fc))
     except Exception as exc:       # noqa: BLE001
         return {"ctor": exc_json(exc)}
     out = []
-    for op in case["ops"]:
-        r = do_op(v, op)
+    # callers keep what they are given: in half of the histories every ValidationError raised by
+    # validate() stays referenced (with its traceback) until the history is over
+    import zlib
+    kept = [] if zlib.crc32(repr(case.get("ops")).encode("utf-8", "replace")) % 2 else None
+    for op in ops:
+        r = do_op(v, op, kept)
         st = state_json(res, world)
         out.append({"r": r, "st": st})
         if observe is not None:
@@ -216,7 +253,7 @@ def run_hist(case, world=None, custom_fc=None, observe=None):
     return out
 
 
-def do_op(v, op):
+def do_op(v, op, kept=None):
     kind = op[0]
     try:
         if kind == "isValid":
@@ -229,6 +266,8 @@ def do_op(v, op):
                 v.validate(op[1])
             except E.ValidationError as e:
                 r = ["invalid", err_json(e)]
+                if kept is not None:
+                    kept.append(e)
                 del e
                 return r
             return ["valid"]
